@@ -58,7 +58,8 @@ CALLEE_NAMES = [('x', 'y', 'z', 't'), ('u', 'v', 'r', 't')]
 S2 = absig.Sentinel('S', 2)
 TOP_CONTEXTS = ['expr', 'assign', 'if', 'try', 'with', 'compr', 'decoyarg', 'for', 'ternary', 'boolop']
 # further statement forms in which the call is executed exactly once (variant 3, which also reaches the callees through an attribute: NS.w1)
-TOP_CONTEXTS3 = ['while', 'else', 'finally', 'withitem', 'fstring', 'subscript', 'assert', 'starlist', 'elif', 'except_else', 'dictvalue', 'compare']
+TOP_CONTEXTS3 = ['while', 'else', 'finally', 'withitem', 'fstring', 'subscript', 'assert', 'starlist', 'elif', 'except_else', 'dictvalue', 'compare',
+                 'attr_of_result', 'attr_store_on_result', 'except_body', 'second_star']
 
 
 def call_text(callee, s, n, names, va, vk, k):
@@ -124,6 +125,14 @@ def in_context(ctx, call, i):
         return ['r%d = {0: %s}' % (i, call)]
     if ctx == 'compare':
         return ['r%d = None is %s' % (i, call)]
+    if ctx == 'attr_of_result':
+        return ['r%d = %s.__class__' % (i, call)]
+    if ctx == 'attr_store_on_result':
+        return ['NSX.last = (%s).__class__' % call]
+    if ctx == 'except_body':
+        return ['try:', '    raise ZeroDivisionError()', 'except ZeroDivisionError:', '    ' + call]
+    if ctx == 'second_star':
+        return ['G(*(), *(%s or ()))' % call]
     raise ValueError(ctx)
 
 
@@ -169,6 +178,11 @@ def taint_text(s, va, vk, tkey, same=False):
     raise ValueError(how)
 
 
+def _prog_salt(prog):
+    import json, zlib
+    return zlib.crc32(json.dumps(prog, sort_keys=True).encode())
+
+
 def render(prog, o, choice, variant=0):
     """prog: statement records; choice: per statement {'w': callee index, 'n': n, 'names': [...]} (fwd only).
     -> (source, line -> statement id)"""
@@ -196,7 +210,7 @@ def render(prog, o, choice, variant=0):
             else:
                 call = call_text(wref % c['w'], s, c['n'], c['names'], va, vk, i)
             if s['ctx'] == 'top':
-                ctx = 'expr' if variant == 0 else TOP_CONTEXTS3[(i + len(prog)) % len(TOP_CONTEXTS3)] if variant == 3 else TOP_CONTEXTS[(i + variant) % len(TOP_CONTEXTS)]
+                ctx = 'expr' if variant == 0 else TOP_CONTEXTS3[(i + _prog_salt(prog)) % len(TOP_CONTEXTS3)] if variant == 3 else TOP_CONTEXTS[(i + variant) % len(TOP_CONTEXTS)]
                 emit(in_context(ctx, call, i), i)
             elif s['ctx'] == 'dead':
                 emit(['if SWF:', '    ' + call], i)
@@ -311,7 +325,8 @@ def build(prog, o, ws, choice, variant):
             return False
     import contextlib
     lm = {}
-    extra = {'SWT': True, 'SWF': False, 'CM': contextlib.nullcontext(), 'CMV': CMV, 'G': lambda *a, **k: None,
+    import types as _types
+    extra = {'NSX': _types.SimpleNamespace(), 'SWT': True, 'SWF': False, 'CM': contextlib.nullcontext(), 'CMV': CMV, 'G': lambda *a, **k: None,
              'H': REC.handover, 'OA': (), 'OK': {}, 'CALLED': lambda: REC.callee_called(lm)}
     g, fname = progs.compile_module(full, extra)
     lm.update(linemap)
